@@ -6,7 +6,8 @@ import itertools
 
 from ..absint import Cls, Const, Dct, Fn, Foreign, Interp, Lst, Obj, Term, explore, is_call, run_method, show
 from ..model import Undecided, walk_no_nested
-from .clientworld import client_opts, delivered_events, event_summary, feed, make_callback, make_client, msg, part, snapshot
+from .common import public_get
+from .clientworld import build_mirror, client_opts, delivered_events, event_summary, feed, make_callback, make_client, msg, part, snapshot
 
 EXPLANATION = (
     "C16.FILTER: _CallbackConfig.accepts_event is evaluated exhaustively over filter (absent / equal / different) for device, vector and "
@@ -320,14 +321,19 @@ def rule_atomic(ctx):
             return fi.module.name in ("indi.client.elements", "indi.device.values")
 
         def run(it: Interp, ci=ci, mcls=mcls):
-            el = Obj(ci, {"name": Const("A"), "vector": Obj(None, label="<vector>"), "_value": Const("old"), "_new_value": Const(None)}, label="el")
+            # the element is produced by the real client code from a definition carrying the value 'old'
+            cl, vecs, els = build_mirror(it, p, kind, layout=(("DEV", "V1"),), names=("A",), old=Const("old"))
+            el = els[("DEV", "V1", "A")]
             it.el = el
             attrs = {"name": Const("A"), "value": Term("param", "text", pytype="str"), "__closed__": Const(True)}
             if kind == "BLOB":
                 attrs["size"] = Term("param", "size", pytype="str")
                 attrs["format"] = Term("param", "format", pytype="str")
             m = Obj(mcls, attrs, label="part")
-            return it.run_function(Fn(f, el), [m], {})
+            try:
+                return it.run_function(Fn(f, el), [m], {})
+            finally:
+                it.kept = public_get(it, el, "value")
 
         paths = explore(p, run, {"inline": pol, "assert_forks": True, "call_may_raise": raiser, "instantiate": lambda c_: c_.qualname == "indi.device.values.BLOB", "max_depth": 8})
         ctx.paths_enumerated += len(paths)
@@ -335,7 +341,7 @@ def rule_atomic(ctx):
         for pa in paths:
             if pa.outcome != "raise":
                 continue
-            v = pa.interp.el.attrs.get("_value")
+            v = pa.interp.kept
             if not (isinstance(v, Const) and v.v == "old"):
                 ctx.violated("C16.ATOMIC", f"{sv.short}[{kind}]", f"when decoding/validating an update raises ({show(pa.value)[:40]}) the element's value has already been replaced by {show(v)[:40]}: the value changes without a ValueUpdate, so a listener holds a stale value and the next event's old value was never announced", fi=sv, text=f"store-before-validate:{kind}", witness="setBLOBVector whose size attribute disagrees with the payload")
                 bad = True
